@@ -23,7 +23,9 @@ META = dict(
               "a spy: Policy.call vs Policy.execute, AsyncPolicy.call, AsyncPolicy.execute at N=2",
         thorough="N=4 / N=3 / N=3 / N=3",
     ),
-    assumptions=["classifier invocations are not compared (Policy.call classifies the final exception once more for the "
+    assumptions=["abort_if consultations are not compared (poll placement is C13's subject; the statement lists invocations, "
+                 "strategy calls, sleeps, events, breaker and budget interactions)",
+                 "classifier invocations are not compared (Policy.call classifies the final exception once more for the "
                  "breaker; the statement does not list classifier calls)",
                  "attempt hooks (on_attempt_start/end) are not part of the compared trace (the statement lists invocations, "
                  "strategy calls, sleeps, events, breaker and budget interactions)",
@@ -83,7 +85,7 @@ def h_pair(sym, params):
     wb = params.get("breaker", False)
     w1 = run_once(csym, params, params["ref"], wb)
     w2 = run_once(csym, params, params["entry"], wb)
-    skip = ("begin", "attempt_start", "attempt_end", "classify", "rclassify")
+    skip = ("begin", "attempt_start", "attempt_end", "classify", "rclassify", "poll")
     t1 = [norm(e) for e in w1.trace if e[0] not in skip]
     t2 = [norm(e) for e in w2.trace if e[0] not in skip]
     if t1 != t2:
